@@ -49,6 +49,7 @@ type Gen struct {
 	nextBet  int64
 	usedBets []int64
 	pending  []Op // operations to be emitted next, in the same block (bursts)
+	feeBack  []int64 // wager fees to be restored (betFeeFlip)
 	deferred []deferredWdr // full withdrawals to be sent in the blocks after the resolution of their market (withdrawInWindow)
 	lastLeader int64 // leader key after the last observed block
 	seenLeader bool
@@ -1432,6 +1433,67 @@ func (g *Gen) withdrawAfterPayout() (Op, bool) {
 	return Op{Kind: "MADD", Signer: g.user(), Tk: lt(), UID: uid, Start: g.c.Time - 5, End: g.c.Time + 60000, Status: 1, Odds: odds}, true
 }
 
+// betFeeFlip: a bet is accepted under one wager fee, the bet module's parameters are updated to another accepted fee, and only then is
+// the market resolved (cancelled, aborted or declared): what a bet is refunded or charged at settlement is the fee it paid, whatever the
+// parameters say by then (C17 with C01, C03, C05).  The old fee comes back a few transactions later.
+func (g *Gen) betFeeFlip() (Op, bool) {
+	cfg := g.c.Cfg
+	ctx := g.c.Ctx()
+	bp := g.c.App.BetKeeper.GetParams(ctx)
+	minDep := cfg.House.MinDeposit.Int64()
+	minBet := bp.Constraints.MinAmount.Int64()
+	fee := bp.Constraints.Fee.Int64()
+	if minBet < 2 || minBet > cfg.Balance/64 || minDep > cfg.Balance/4 {
+		return Op{}, false
+	}
+	dep := 40 * minBet
+	if dep < minDep {
+		dep = minDep
+	}
+	if dep > cfg.Balance/2 {
+		return Op{}, false
+	}
+	uid := g.nextMkt
+	g.nextMkt++
+	odds := []int64{uid * 10, uid*10 + 1}
+	lt := func() Ticket { return Ticket{Signer: int64(g.c.LeaderKey()), Exp: g.c.Time + 4000} }
+	ky := func(x int64) Kyc { return Kyc{Ignore: false, Approved: true, ID: x} }
+	h, b := g.user(), g.user()
+	var all []OddsMult
+	for _, od := range odds {
+		all = append(all, OddsMult{Odds: od, Mult: decFromStr("1")})
+	}
+	var nf int64
+	switch g.r.Intn(3) {
+	case 0:
+		nf = 0
+	case 1:
+		nf = minBet - 1
+	default:
+		nf = g.r.Int63n(minBet)
+	}
+	if nf == fee {
+		nf = (fee + 1) % minBet
+	}
+	seq := []Op{
+		{Kind: "DEP", Signer: h, Tk: lt(), Mkt: uid, Amount: bi(dep), Ky: ky(h), Depositor: -1},
+		{Kind: "WAG", Signer: b, Tk: lt(), BetUID: g.nextBet, Amount: bi(minBet + int64(g.r.Intn(3))), SelMkt: uid, SelOdds: odds[0], OddsVal: decFromStr("2"),
+			Mult: decFromStr("1"), Ky: ky(b), OddsType: 1, AllOdds: all},
+		{Kind: "BFEE", Amount: bi(nf)},
+	}
+	g.nextBet++
+	st := []int64{3, 4, 5}[g.r.Intn(3)]
+	res := Op{Kind: "MRES", Signer: g.user(), Tk: lt(), UID: uid, Rts: g.c.Time, Status: st}
+	if st == 5 {
+		res.Winners = []int64{odds[g.r.Intn(2)]}
+	}
+	seq = append(seq, res)
+	g.pending = append(g.pending, seq...)
+	g.feeBack = append(g.feeBack, fee)
+	g.stats["bet_fee_flip_script"]++
+	return Op{Kind: "MADD", Signer: g.user(), Tk: lt(), UID: uid, Start: g.c.Time - 5, End: g.c.Time + 60000, Status: 1, Odds: odds}, true
+}
+
 // subParamFlip: a subaccount deposits as a house on a fresh market, then the subaccount module's parameters are updated (an endpoint is
 // switched off) BEFORE the market is resolved and the participation settled: settlement, refunds and the ledger bookkeeping of what was
 // accepted under the old parameters must not depend on the new ones (C17: the ledgers stay sound under every accepted parameter history).
@@ -1527,6 +1589,16 @@ func (g *Gen) NextTx() Op {
 				g.stats["withdraw_in_settlement_window"]++
 				return Op{Kind: "WDR", Signer: d.owner, Tk: g.ticket(), Mkt: d.mkt, Pidx: 1, Mode: 1, Amount: bi(0), Ky: g.kycFor(d.owner), Depositor: -1}
 			}
+		}
+	}
+	if len(g.feeBack) > 0 && g.chance(0.05) {
+		f := g.feeBack[0]
+		g.feeBack = g.feeBack[1:]
+		return Op{Kind: "BFEE", Amount: bi(f)}
+	}
+	if ((g.profile == "bet" || g.profile == "tiny") && g.chance(0.008)) || (g.profile == "params" && g.chance(0.04)) {
+		if o, ok := g.betFeeFlip(); ok {
+			return o
 		}
 	}
 	if (g.profile == "bet" || g.profile == "sub") && g.chance(0.015) {
